@@ -388,8 +388,12 @@ func resolvabilityPredicate(h *ssa.Function) bool {
 	var expand *ssa.Call
 	core.EachInstr(h, func(i ssa.Instruction) {
 		if c, ok := i.(*ssa.Call); ok {
-			if g := core.StaticCallee(c); g != nil && core.QualName(g) == "spec.ExpandSchema" {
-				expand = c
+			if g := core.StaticCallee(c); g != nil {
+				if core.QualName(g) == "spec.ExpandSchema" {
+					expand = c
+				} else if _, _, isW := expandWrapper(g); isW {
+					expand = c // spec.ExpandSchema behind a thin wrapper (a panic boundary)
+				}
 			}
 		}
 	})
@@ -628,4 +632,45 @@ func CtorRecursion(p *core.Prog, r *core.Report) {
 	}
 	r.Count("constructor_cycles", n)
 	r.Floor("constructor_cycles", 1)
+}
+
+// expandWrapper: g does nothing but call spec.ExpandSchema on two of its own parameters (the schema and the root)
+// and return its error — possibly behind a deferred recover. Returns the positions of those parameters.
+func expandWrapper(g *ssa.Function) (schemaIdx, rootIdx int, ok bool) {
+	if g == nil || len(g.Blocks) == 0 || g.Signature.Results().Len() != 1 || g.Signature.Results().At(0).Type().String() != "error" {
+		return 0, 0, false
+	}
+	n := 0
+	schemaIdx, rootIdx = -1, -1
+	core.EachInstr(g, func(i ssa.Instruction) {
+		c, isC := i.(*ssa.Call)
+		if !isC {
+			return
+		}
+		h := core.StaticCallee(c)
+		if h == nil {
+			n += 2 // an unknown call: not a thin wrapper
+			return
+		}
+		if core.QualName(h) != "spec.ExpandSchema" {
+			n += 2
+			return
+		}
+		n++
+		for k, prm := range g.Params {
+			if len(c.Call.Args) > 0 && c.Call.Args[0] == ssa.Value(prm) {
+				schemaIdx = k
+			}
+			if len(c.Call.Args) > 1 {
+				a := c.Call.Args[1]
+				if mi, isMI := a.(*ssa.MakeInterface); isMI {
+					a = mi.X
+				}
+				if a == ssa.Value(prm) {
+					rootIdx = k
+				}
+			}
+		}
+	})
+	return schemaIdx, rootIdx, n == 1 && schemaIdx >= 0 && rootIdx >= 0
 }
